@@ -944,3 +944,8 @@ mod test {
         Ok(())
     }
 }
+
+// Verification harnesses (Kani); compiled only by the Kani compiler, which sets cfg(kani).
+#[cfg(kani)]
+#[path = "/verif/harness/header.rs"]
+mod verif_kani;
